@@ -49,6 +49,11 @@ pub proof fn lemma_kt_bounds(c: ObjectTransmissionInformation)
     assert(kt <= z * 56403);
     assert(z * 56403 <= 255 * 56403) by (nonlinear_arith) requires z <= 255;
 }
+} // verus!
+'''
+
+SPEC_LEMMAS = r'''
+verus! {
 pub proof fn lemma_block_total(kt: int, z: int, t: int)
     requires kt >= 0, z >= 1, t >= 0,
     ensures ({ let kl = ceil_div(kt, z); let ks = kt / z; let zl = kt - ks * z;
@@ -142,6 +147,7 @@ def build():
     oti_struct_and_accessors(u)
     u.raw('} // verus!')
     u.raw(SPEC)
+    u.raw(SPEC_LEMMAS)
     u.raw('verus! {')
     v_oti.int_div_ceil(u)
     v_part.partition(u)
